@@ -133,6 +133,10 @@ fn restricted_context() -> Context {
 // ------------------------------------------------------------------------------------------
 // guarded execution: a helper thread per worker runs the case; the worker waits HANG_MS
 // ------------------------------------------------------------------------------------------
+/// separates the runs of a multi-run library script (a comment line, harmless inside one run)
+const NEXT_RUN: &str = "#---next-run-on-the-returned-context---";
+const NEXT_RUN_SEP: &str = "\n#---next-run-on-the-returned-context---\n";
+
 enum Job {
     Text(String),
     Lib(String, Vec<(String, String)>),
@@ -159,7 +163,18 @@ fn run_job(job: Job) -> String {
                 ctx.variables.insert(k, v);
             }
             let halt = guarded_halt(HALT_MS);
-            let r = duckscript::runner::run_script(&script, ctx, Some(quiet_env(Some(halt.clone()))));
+            // a script may consist of several RUNS on one Context (`NEXT_RUN` comment lines
+            // between them): each part runs on the Context the previous run returned - state left
+            // behind by an earlier run (scope stack, handles, call stacks, on_error record) is what
+            // the next run starts from; a failed run ends the history (its Context is gone)
+            let parts: Vec<&str> = script.split(NEXT_RUN_SEP).collect();
+            let mut r = duckscript::runner::run_script(parts[0], ctx, Some(quiet_env(Some(halt.clone()))));
+            for part in &parts[1..] {
+                r = match r {
+                    Ok(c) => duckscript::runner::run_script(part, c, Some(quiet_env(Some(halt.clone())))),
+                    Err(e) => Err(e),
+                };
+            }
             if std::env::var("C07_STATS").is_ok() {
                 // diagnostic only (stderr): how the runs end
                 let halted = halt.load(std::sync::atomic::Ordering::SeqCst);
@@ -607,6 +622,12 @@ impl<'a> Gen<'a> {
                     if !allow_wrappers {
                         continue;
                     }
+                    // sometimes the whole wrapped "command line" is ONE value made of characters that
+                    // vanish when the line is rebuilt and parsed again (line breaks, blanks, a comment)
+                    if self.rng.chance(1, 8) {
+                        let t = *self.rng.pick(&["\n", "\r\n", "\t", " ", "\u{3000}", "\n\n", "#c", "", "\u{feff}", "\u{85}"]);
+                        return format!("{} {}", cmd, quote(t));
+                    }
                     let inner = if self.rng.chance(1, 6) { self.cond_tokens() } else { self.call(false) };
                     return format!("{} {}", cmd, inner);
                 }
@@ -921,8 +942,25 @@ impl Prop for C07Prop {
         for s in regress {
             out.push(lib_case(s, &[], vec!["regression-fixed-panics"]));
         }
+        // state left behind by an earlier run on the same Context (the runner clones the state at
+        // the start of every run: values held through Rc are then shared)
+        let carry = [
+            "scope_push_stack\n#NEXT\nscope_pop_stack",
+            "a = set 1\nscope_push_stack --copy a\n#NEXT\nscope_pop_stack --copy a\nscope_pop_stack",
+            "fn <scope> f\n    exit\nend\nf\n#NEXT\nscope_pop_stack\nx = set 1",
+            "fn <scope> f\n    exit\nend\nf\n#NEXT\nf\n#NEXT\nscope_pop_stack\nscope_pop_stack",
+            "h = array a b\nfor i in ${h}\n    exit\nend\n#NEXT\nfor i in ${h}\n    x = set ${i}\nend\nrelease ${h}",
+            "h = map\nmap_put ${h} k v\n#NEXT\nx = map_get ${h} k\nrelease -r ${h}\n#NEXT\nx = map_get ${h} k",
+            "if true\n    while true\n        exit\n    end\nend\n#NEXT\nend\nelse\nend_while",
+            "exit_on_error true\n#NEXT\nx = array_length nope\ny = get_last_error",
+            "on_error_probe = set 1\ntrigger_error boom\n#NEXT\nx = get_last_error\ny = get_last_error_line",
+        ];
+        for s in carry {
+            out.push(lib_case(&s.replace("#NEXT", NEXT_RUN), &[], vec!["several-runs-on-one-context"]));
+        }
         // systematic sweep: every allow-listed non-flow command with a few argument vectors
-        let vectors: [&[&str]; 12] = [
+        let vectors: [&[&str]; 15] = [
+            &["\"\\n\""], &["\"\\t\""], &["\"\u{3000}\""],
             &[], &["\"\""], &["é漢😀"], &["-1"], &["0", "1", "2"], &["${h0}"], &["${h1}", "${h0}"], &["${h2}", "0", "é"],
             &["${gone}"], &["handle:abc", "x"], &["--copy", "nope", "nope"], &["9223372036854775808", "-9223372036854775809"],
         ];
@@ -932,7 +970,7 @@ impl Prop for C07Prop {
                 continue;
             }
             for (i, v) in vectors.iter().enumerate() {
-                if SIZE_DRIVEN.contains(&cmd) && i >= 3 && i != 5 {
+                if SIZE_DRIVEN.contains(&cmd) && i >= 6 && i != 8 {
                     continue;
                 }
                 if cmd == "json_encode" && v.first() == Some(&"--collection") {
@@ -951,8 +989,29 @@ impl Prop for C07Prop {
             tags.push("parser-level");
             Case { req: format!("c07 text {}", enc_str(&s)), in_domain: true, nontrivial: !s.trim().is_empty(), tags }
         } else {
-            let (script, vars, mut tags) = gen_script(rng);
+            let (mut script, mut vars, mut tags) = gen_script(rng);
             tags.push("library-level");
+            // one script in four is followed by one or two more runs on the returned Context;
+            // the earlier runs often stop half-way (exit) so that stacks stay filled
+            if rng.chance(1, 4) {
+                for _ in 0..1 + rng.below(2) {
+                    if rng.chance(1, 3) {
+                        let lines: Vec<&str> = script.lines().collect();
+                        let at = rng.below(lines.len() + 1);
+                        let mut l: Vec<String> = lines.iter().map(|x| x.to_string()).collect();
+                        l.insert(at, "exit".to_string());
+                        script = l.join("\n");
+                    }
+                    let (s2, v2, _) = gen_script(rng);
+                    script = format!("{}\n{}\n{}", script, NEXT_RUN, s2);
+                    for kv in v2 {
+                        if !vars.iter().any(|(k, _)| *k == kv.0) {
+                            vars.push(kv);
+                        }
+                    }
+                }
+                tags.push("several-runs-on-one-context");
+            }
             lib_case(&script, &vars, tags)
         }
     }
